@@ -28,3 +28,4 @@ def run(ctx):
     # every class must compile the pattern of its own structure(): what the accepted language rests on
     from ..rules_ast import persistent_state_rule
     ctx.guard(persistent_state_rule, ctx, "C11.own-pattern")
+    run_kernels(ctx, ["K13", "K16"], "C11")
